@@ -370,6 +370,20 @@ func opGetTF(h *Hist) {
 	var val MVal
 	for lvl := 0; lvl < 4; lvl++ {
 		s := seg{isIdx: !cur.IsObj}
+		if lvl < len(h.repeatPath) {
+			// second half of a sandwich: the same path as before, as far as it still resolves
+			r := h.repeatPath[lvl]
+			if v, ok := child(cur, r); ok && r.isIdx == s.isIdx {
+				path = append(path, r)
+				val = v
+				if !val.isRef() || lvl+1 >= len(h.repeatPath) {
+					break
+				}
+				cur = val.N
+				continue
+			}
+			h.repeatPath = nil
+		}
 		if s.isIdx {
 			if len(cur.Elems) == 0 {
 				break
@@ -397,6 +411,7 @@ func opGetTF(h *Hist) {
 	if len(path) == 0 {
 		return
 	}
+	h.lastPath = path
 	ps := renderPath(path)
 	var got any
 	var typ at.Type
